@@ -17,7 +17,7 @@ def tla_set(xs):
 
 
 def cfg_for(path, dev="none", sparsefrag=False, nf=2, mb=1, ids=None, backlogs=(3, 4), flagsets=None, tails=(1, 3),
-            perfect=False, emit=False, invariants=("Safety", "Deterministic")):
+            perfect=False, emit=False, invariants=("Safety", "Deterministic"), chain=None):
     ids = ids or DEFAULT_IDS
     flagsets = flagsets if flagsets is not None else [[], ["IGNORE_SPARSE"]]
     idset = tla_set('"%s"' % i for i in ids)
@@ -26,7 +26,8 @@ def cfg_for(path, dev="none", sparsefrag=False, nf=2, mb=1, ids=None, backlogs=(
     write_cfg(path, spec="Spec",
               constants={"B": 4, "MaxFiles": nf, "MaxBlocks": mb, "SparseCheckOnFragBlock": sparsefrag, "Dev": '"%s"' % dev,
                          "Backlogs": set(backlogs), "Zero": '"z"', "TailSizes": set(tails), "PerfectHash": perfect, "Emit": emit},
-              defs={"ContentIds": idset, "H": "[x \\in %s |-> 0]" % idset, "CS": cs, "FlagSets": fs},
+              defs={"ContentIds": idset, "H": "[x \\in %s |-> 0]" % idset, "CS": cs, "FlagSets": fs,
+                    "ChainSeq": "<<%s>>" % ", ".join('"%s"' % c for c in (chain or []))},
               invariants=list(invariants), deadlock=False)
 
 
